@@ -101,14 +101,17 @@ theorem dupRec_kkey (S : Schema) (n : DNode) : kkey S (dupRec n) = kkey S n := b
 
 /-! ### the order is a function of the keys -/
 
-/-- asymmetry of the key order (proved for all keys in `OrderTheory.lean`) -/
-def KAsym (S : Schema) : Prop := ∀ k1 k2, kltK S k1 k2 = true → kltK S k2 k1 = false
+/-- asymmetry of the key order on the keys `P` (proved for the keys of well-formed trees in `OrderTheory.lean`; it
+does not hold for arbitrary pairs of keys: `rb_compare_lists` takes the type of each key from the first instance) -/
+def KAsymOn (S : Schema) (P : Key → Prop) : Prop :=
+  ∀ k1 k2, P k1 → P k2 → kltK S k1 k2 = true → kltK S k2 k1 = false
 
-theorem klt_asymm (S : Schema) (h : KAsym S) (x y : DNode) (hx : shapeOk S x = true) (hy : shapeOk S y = true)
+theorem klt_asymm (S : Schema) (P : Key → Prop) (h : KAsymOn S P) (x y : DNode) (hx : shapeOk S x = true)
+    (hy : shapeOk S y = true) (hpx : P (kkey S x)) (hpy : P (kkey S y))
     (hk : klt S x y = true) : klt S y x = false := by
   rw [klt_eq_kltK S x y hx hy] at hk
   rw [klt_eq_kltK S y x hy hx]
-  exact h _ _ hk
+  exact h _ _ hpx hpy hk
 
 theorem klt_congr (S : Schema) (x x' y y' : DNode) (hx : shapeOk S x = true) (hx' : shapeOk S x' = true)
     (hy : shapeOk S y = true) (hy' : shapeOk S y' = true) (h1 : kkey S x' = kkey S x) (h2 : kkey S y' = kkey S y) :
